@@ -37,7 +37,7 @@ class C20(Prop):
                 elif k == 1:
                     extra.append(G.op_match_doc("json", 0, t, r.choice(G.BAD_JSON)))
                 elif k == 2:
-                    extra.append({"op": "skip", "test": hx(t)})
+                    extra.append({"op": "skip", "test": hx(t), "form": r.choice(["", "f", "now"])})
                 elif k == 3:
                     extra.append(G.op_match_doc("standjson", 1, t, r.choice(G.JSON_DOCS)))
                 elif k == 4:
